@@ -416,6 +416,12 @@ def run_e4(cfg, ctx):
             ok, counts, out, dot = conform.run_tlc(cfg["n"], cfg["pool"], cfg["max_tasks"], d, dump=False)
             r = {"tlc_ok": ok, "tlc_generated": counts[0], "tlc_distinct": counts[1], "edges": 0, "paths": 0, "steps": 0,
                  "problems": [] if ok else [("tlc", out[-1500:])], "uncovered": 0}
+    if r["problems"] and r["problems"][0][0] == "tlc" and str(r["problems"][0][1]).startswith("TLC-INCOMPLETE"):
+        # the model checker did not finish (time limit): nothing was decided for this configuration
+        ctx.capped = True
+        ctx.notes.append("E4 %r: TLC did not finish within its time limit" % ((cfg["n"], cfg["pool"], cfg["max_tasks"]),))
+        ctx.outcomes["e4:tlc-incomplete"] += 1
+        return
     ctx.evals += r["paths"] + 1
     ctx.states += r["tlc_distinct"]
     ctx.transitions += r["tlc_generated"]
